@@ -43,6 +43,8 @@ def run(ctx, rep):
         c12.r_tag(sh, rep)
 
     rep.guarded("R12-TAG", tag)
+    rep.rule("R07-SITES", "two single-site clauses of the checker: a back-passed `let` stays a `let` (and stays subject to the exhaustiveness check); missing record patterns are printed with labels in field order", floor=2)
+    rep.guarded("R07-SITES", lambda: r_sites7(sh, rep))
     rep.rule("R07-LEAFARGS", "a clause body hoisted out of the decision tree is called, at every leaf, with its arguments in the order of its parameters", floor=1)
     rep.guarded("R07-LEAFARGS", lambda: r_leafargs(sh, rep))
     rep.rule("R07-LITEQ", "literal patterns are told apart exactly: equality on exhaustive::Literal / Pattern is structural (derived) or, if written by hand, free of lossy conversions", floor=2)
@@ -262,6 +264,15 @@ def r_seed(sh, rep):
         els = node.get("else")
         creates = els is not None and any(c.get("k") == "MethodCall" and c["m"] == "push" and c["recv"].get("k") == "Path" and c["recv"]["p"] == vec for c in walk(els))
         seeded = KEYED[vec] is None or (els is not None and any(x.get("k") == "Path" and x["p"] == KEYED[vec] for x in walk(els)))
+        if seeded and KEYED[vec] is not None:
+            # the new matrix starts from the default rows unconditionally: `let mut rows = default_matrix.clone()` (a method
+            # chain on the default rows), never under a condition on the case
+            inits = [x["init"] for x in walk(els) if x.get("k") == "Local" and x.get("init") is not None and any(y.get("k") == "Path" and y["p"] == KEYED[vec] for y in walk(x["init"]))]
+            def root(e):
+                while e.get("k") in ("MethodCall",):
+                    e = e["recv"]
+                return e
+            seeded = bool(inits) and all(root(i).get("k") == "Path" and root(i)["p"] == KEYED[vec] for i in inits)
         rep.check(creates and seeded, "R07-SEED", "do_build_tree#%s#find-or-create#%d" % (vec, n), sh.loc(DT, node), "this lookup in `%s` handles only the hit (miss branch %s%s): a row whose case has no entry yet is dropped, and a later clause creating the entry starts from the wildcard rows alone — a list or constructor value then runs a later clause than the first one that matches" % (vec, "creates an entry" if creates else "does not create the entry", "" if seeded else ", not seeded from `%s`" % KEYED[vec]), sample={"table": vec, "line": node["s"][0]})
     # the two distribution loops: a `[.., ..tail]` row with prefix k goes into every List(n) / ListWithTail(n) matrix for
     # n from k up to *and including* the longest pattern of that kind
@@ -388,3 +399,42 @@ def r_leafargs(sh, rep):
                 if n.get("k") == "Local" and n["pat"].get("k") == "Ident" and n["pat"]["name"] == loc and n.get("init") is not None and re.search(r"(?<![\w.])%s\b" % re.escape(params), sh.nsrc(DT, n["init"])):
                     derived = True
         rep.check(derived, "R07-LEAFARGS", "do_build_tree#leaf-arguments-follow-parameter-order", sh.loc(DT, c), "the leaf passes `%s` to the hoisted clause body without relating it to the stored parameter list `%s`: the call is positional, and two branches reaching the same clause can collect its variables in different orders — the body then runs with its variables swapped" % (asrc, params), sample={"argument_list": asrc, "parameter_list": params})
+
+
+def r_sites7(sh, rep):
+    """(a) ExprTyper::backpass rewrites `let p <- f(x)` into a callback whose first statement re-binds p with the same
+    assignment kind. A `let` must stay a `let`: turned into an `expect` it is no longer checked for exhaustiveness and a
+    refutable pattern is accepted. The kind mapping is a match on the kind: whatever arm can take `Let` yields let_(),
+    and expect() comes only from arms that take nothing but `Expect`.
+    (b) Pattern::pretty prints a missing constructor pattern by zipping the field labels with the argument patterns:
+    the labels must be in field-index order (the order of the arguments), not in name order."""
+    TEXP = "crates/aiken-lang/src/tipo/expr.rs"
+    f = find_method(sh.file(TEXP), "ExprTyper", "backpass")
+    rep.touched(TEXP, "ExprTyper::backpass")
+    ms = [m for m in matches_in(f["body"]) if sh.nsrc(TEXP, m["e"]) == "kind" and any("AssignmentKind::" in sh.nsrc(TEXP, a["body"]) for a in m["arms"])]
+    if not ms:
+        raise AnchorMissing("the assignment-kind mapping in ExprTyper::backpass")
+    bad = []
+    for a in ms[0]["arms"]:
+        heads = {last(pat_head(x) or "_") for x in pat_alts(a["pat"])}
+        body = sh.nsrc(TEXP, a["body"])
+        if "AssignmentKind::expect()" in body and not heads <= {"Expect"}:
+            bad.append("an arm taking %s yields expect()" % sorted(heads))
+        if heads & {"Let", "_"} and "unreachable" not in body and ("AssignmentKind::let_()" not in body or a.get("guard") is not None):
+            bad.append("the arm taking %s does not yield let_() unconditionally" % sorted(heads))
+    rep.check(not bad, "R07-SITES", "backpass#let-stays-let", sh.loc(TEXP, ms[0]), "; ".join(bad) + ": a back-passed `let` with a refutable pattern would be compiled as an `expect` and escape the exhaustiveness check")
+    g = find_method(sh.file(EXH), "Pattern", "pretty")
+    rep.touched(EXH, "Pattern::pretty")
+    zips = [n for n in walk(g["body"]) if n.get("k") == "MethodCall" and n["m"] == "zip" and "args" in sh.nsrc(EXH, n["args"][0]) and "field" in sh.nsrc(EXH, n["recv"])]
+    ok = False
+    why = "no label/argument zip found"
+    for z in zips:
+        chain = []
+        e = z["recv"]
+        while e.get("k") == "MethodCall":
+            chain.append(e)
+            e = e["recv"]
+        sorts = [c for c in chain if c["m"].startswith("sort")]
+        ok = bool(sorts) and all(c["m"] in ("sorted_by", "sorted_by_key", "sort_by", "sort_by_key") and "index" in sh.nsrc(EXH, c["args"][0]) for c in sorts)
+        why = "sorting steps %s" % [(c["m"], sh.nsrc(EXH, c["args"][0])[:40] if c["args"] else "") for c in sorts]
+    rep.check(ok, "R07-SITES", "pretty#labels-in-field-order", sh.loc(EXH, zips[0]) if zips else sh.loc(EXH, g), "the labels of a missing record pattern are not ordered by field index before they are zipped with the argument patterns (%s): the reported pattern pairs each label with another field's sub-pattern, so it names matched values as missing" % why)
